@@ -1076,6 +1076,10 @@ def _int(it, a, k):
             if not it.truth(mk_bool(IS_INT_TEXT(v.term))):
                 raise ValueError("invalid literal for int()")
             return Sym(ops.PY_INT(v.term), int)
+        if v.pyt is float:
+            # truncation of a binary64: an uninterpreted function of the float (no claim that it inverts a text conversion:
+            # int(float(text)) is NOT int(text) beyond 2**53). NaN / infinities raise in Python; finite values assumed here.
+            return Sym(z3.Function("py_int_of_float", ops.F64, z3.IntSort())(v.term), int)
         raise Unsupported(f"int() of {v!r}")
     return NotImplemented
 
